@@ -15,17 +15,26 @@ EXTENDS Repo
 CONSTANTS NonCanon, FsckFlags, Damages
 
 VARIABLES bad,      \* oids moved aside to lfs/bad
+          fstaged,  \* path -> object staged but not committed ("same": index equals HEAD)
           fdone
-fvars == <<rvars, bad, fdone, steps, hist>>
-FView == <<rvars, bad, fdone>>
+fvars == <<rvars, bad, fstaged, fdone, steps, hist>>
+FView == <<rvars, bad, fstaged, fdone>>
 
-FInit == RepoInit /\ bad = {} /\ fdone = FALSE
+FInit == RepoInit /\ bad = {} /\ fstaged = [p \in Paths |-> "same"] /\ fdone = FALSE
 
 Keep == ~fdone /\ UNCHANGED <<bad, fdone>>
-FCommit(b, p, blob, g) == Keep /\ (blob \in Oids => local[blob] \in {"absent", "valid"}) /\ Commit(b, p, blob, g)
-FMerge(b, o)           == Keep /\ Merge(b, o)
+FClean == \A p \in Paths : fstaged[p] = "same"
+FCommit(b, p, blob, g) == Keep /\ FClean /\ UNCHANGED fstaged /\ (blob \in Oids => local[blob] \in {"absent", "valid"}) /\ Commit(b, p, blob, g)
+FMerge(b, o)           == Keep /\ FClean /\ UNCHANGED fstaged /\ Merge(b, o)
+\* git add of a new version of p (object o) without committing it
+FStage(p, o) ==
+  /\ Keep /\ FClean /\ br[head] # NoCommit /\ TreeOf(br[head])[p] # o /\ local[o] \in {"absent", "valid"} /\ o \notin NonCanon
+  /\ fstaged' = [fstaged EXCEPT ![p] = o]
+  /\ local' = [local EXCEPT ![o] = "valid"]
+  /\ UNCHANGED <<commits, br, rr, rt, head, server, everRemote>>
+  /\ Log([a |-> "stage", p |-> p, oid |-> o])
 FDamage(o, how) ==
-  /\ Keep /\ local[o] = "valid" /\ how \in Damages
+  /\ Keep /\ UNCHANGED fstaged /\ local[o] = "valid" /\ how \in Damages
   /\ local' = [local EXCEPT ![o] = IF how = "absent" THEN "absent" ELSE "corrupt"]
   /\ UNCHANGED <<commits, br, rr, rt, head, server, everRemote>>
   /\ Log([a |-> "damage", oid |-> o, how |-> how])
@@ -33,19 +42,23 @@ FDamage(o, how) ==
 HeadCommit == br[head]
 \* git-lfs-fsck(1): "Checks all Git LFS files in the current HEAD" - the tree of the checked commit
 \* (plus the index, which equals it here), not its history; a range checks what the range introduced
+OnlyPar(c) == CHOOSE q \in commits[c].par : TRUE
+\* the commit the range excludes: HEAD^ for "tip", HEAD~2 for "tip2" (first-parent chain without merges)
+Excluded(scope) == IF scope = "tip" THEN OnlyPar(HeadCommit) ELSE OnlyPar(OnlyPar(HeadCommit))
+HasChain(scope) == /\ HeadCommit # NoCommit /\ Cardinality(commits[HeadCommit].par) = 1
+                   /\ (scope = "tip2" => Cardinality(commits[OnlyPar(HeadCommit)].par) = 1)
 InScope(scope) ==
-  IF scope = "head" THEN PtrOids({HeadCommit}, commits)
-  ELSE \* "tip": only what the last commit introduced  (fsck <parent>..<head>)
-       LET c == HeadCommit IN
-       IF c = NoCommit THEN {} ELSE
-          PtrOids(Anc(c, commits) \ UNION {Anc(q, commits) : q \in commits[c].par}, commits)
-           \ PtrOids(UNION {Anc(q, commits) : q \in commits[c].par}, commits)
+  IF scope = "head" THEN PtrOids({HeadCommit}, commits) \cup ({fstaged[p] : p \in Paths} \cap Oids)   \* HEAD's tree and the index
+  ELSE \* a range checks what its commits introduced  (fsck <excluded>..HEAD); the index is not looked at
+       LET c == HeadCommit
+           x == Excluded(scope) IN
+          PtrOids(Anc(c, commits) \ Anc(x, commits), commits) \ PtrOids(Anc(x, commits), commits)
 BadObjects(scope)  == {o \in InScope(scope) : local[o] # "valid"}
 BadPointers == {p \in Paths : TreeOf(HeadCommit)[p] = "raw" \/ TreeOf(HeadCommit)[p] \in NonCanon}
 
 Fsck(flag, scope) ==
-  /\ ~fdone /\ HeadCommit # NoCommit /\ flag \in FsckFlags /\ scope \in {"head", "tip"}
-  /\ (scope = "tip" => Cardinality(commits[HeadCommit].par) = 1 /\ flag = "objects")
+  /\ ~fdone /\ HeadCommit # NoCommit /\ flag \in FsckFlags /\ scope \in {"head", "tip", "tip2"}
+  /\ (scope # "head" => HasChain(scope) /\ flag = "objects")
   /\ LET chkObj == flag \in {"none", "objects", "dry-run"}
          chkPtr == flag \in {"none", "pointers", "dry-run"}
          bo == IF chkObj THEN BadObjects(scope) ELSE {}
@@ -57,12 +70,13 @@ Fsck(flag, scope) ==
         /\ Log([a |-> "fsck", flag |-> flag, scope |-> scope, ok |-> (bo = {} /\ bp = {}),
                 badObjects |-> bo, missing |-> {o \in bo : local[o] = "absent"}, corrupt |-> {o \in bo : local[o] = "corrupt"},
                 badPointers |-> bp, moved |-> moved, intact |-> LocalValid])
-  /\ UNCHANGED <<commits, br, rr, rt, head, server, everRemote>>
+  /\ UNCHANGED <<commits, br, rr, rt, head, server, everRemote, fstaged>>
 
 FNext == \/ \E b \in Branches, p \in Paths, blob \in Blobs, g \in Ages : FCommit(b, p, blob, g)
          \/ \E b, o \in Branches : FMerge(b, o)
          \/ \E o \in Oids, h \in Damages : FDamage(o, h)
-         \/ \E f \in FsckFlags, s \in {"head", "tip"} : Fsck(f, s)
+         \/ \E p \in Paths, o \in Oids : FStage(p, o)
+         \/ \E f \in FsckFlags, s \in {"head", "tip", "tip2"} : Fsck(f, s)
 FSpec == FInit /\ [][FNext]_fvars
 
 \* C13 on the design
